@@ -127,6 +127,15 @@ func (f *multiFam) play(l *Line, out *rec) error {
 	var handled []string
 	old := zerolog.ErrorHandler
 	zerolog.ErrorHandler = func(err error) {
+		if r.side != nil {
+			// an ErrorHandler that reports through zerolog itself (re-entrant): the event being finished must still complete -
+			// Panic() still panics - whatever the handler's own event does to the pools
+			// (two events open at once: whichever pooled object the finished event went back into is among them)
+			e1 := r.side.Error().Err(err)
+			e2 := r.side.Warn().Str("also", "open")
+			e2.Msg("second")
+			e1.Msg("write failed")
+		}
 		if s, ok := errs[err]; ok {
 			handled = append(handled, s)
 		} else {
@@ -136,6 +145,13 @@ func (f *multiFam) play(l *Line, out *rec) error {
 	defer func() { zerolog.ErrorHandler = old }()
 	var logger zerolog.Logger
 	if c.Multi {
+		if crc32.ChecksumIEEE([]byte(l.ID))%2 == 1 {
+			// every second history: one more destination at the end that is not part of the modelled list - a zerolog.Logger used
+			// as an io.Writer (forwarding events into another logger). It accepts everything, so it must change nothing: a
+			// Logger.Write that reports fewer bytes than it took would surface as a short write nobody made
+			audit := zerolog.New(io.Discard)
+			ws = append(ws, audit)
+		}
 		logger = zerolog.New(zerolog.MultiLevelWriter(ws...))
 	} else {
 		logger = zerolog.New(ws[0])
